@@ -6,12 +6,12 @@
 (* pair a member of the specification's unbounded answer, distinct keys;   *)
 (* the relative order of equal counts is left free.                        *)
 (***************************************************************************)
-EXTENDS HeavyHitters, BigNum, Json, IOUtils
+EXTENDS HeavyHitters, DigNum, Json, IOUtils
 VARIABLES tid, l, ok
 tvars == <<vars, tid, l, ok>>
 
 Traces == JsonDeserialize(IOEnv.TRACE_FILE)
-BigCap32 == <<4095, 1048575>>
+BigCap32 == <<1073741823, 3>>     \* 2^32 - 1 in base-2^30 digits
 TSlots == 1..4
 
 TraceEnv(t) ==
